@@ -52,6 +52,15 @@ func (g *ProgGen) freeBlockName() string {
 	return ""
 }
 
+// forbidBlocks prevents block tags in what is generated next (a block inside a
+// macro body is resolved through the caller's chain and can re-enter the caller:
+// unbounded recursion, outside every claim). It returns the function that undoes it.
+func (g *ProgGen) forbidBlocks() func() {
+	saved := g.used
+	g.used = map[string]bool{"b0": true, "b1": true, "b2": true, "b3": true, "b4": true, "b5": true}
+	return func() { g.used = saved }
+}
+
 func (g *ProgGen) resetTemplate() {
 	g.macros, g.blocks, g.locals, g.open, g.used = nil, nil, nil, nil, map[string]bool{}
 }
@@ -330,7 +339,11 @@ func (g *ProgGen) node(depth int, aux []string, inBlock bool) Node {
 			n.Seq = &EName{Name: g.name()}
 		}
 		saved := g.locals
-		g.locals = append(append([]string{}, g.locals...), n.Val, "loop")
+		g.locals = append(append([]string{}, g.locals...), n.Val)
+		if !g.SingleEntryHashes {
+			// the loop record is a multi-entry map: iterating or joining it depends on Go's map order
+			g.locals = append(g.locals, "loop")
+		}
 		if n.Key != "" {
 			g.locals = append(g.locals, n.Key)
 		}
@@ -476,7 +489,9 @@ func (g *ProgGen) Program() (map[string]*Template, string) {
 			params := []string{"p", "q", "r"}[:r.Intn(4)]
 			saved := g.locals
 			g.locals = append([]string{}, params...)
+			restore := g.forbidBlocks()
 			mb := g.Nodes(1, 1+r.Intn(3), nil, false)
+			restore()
 			g.locals = saved
 			body = append(body, &NMacro{Name: name, Params: params, Body: mb, ID: g.id("M")})
 			g.macros = append(g.macros, name) // later macros may call earlier ones only
@@ -552,7 +567,9 @@ func (g *ProgGen) Program() (map[string]*Template, string) {
 			params := []string{"p", "q"}[:r.Intn(3)]
 			saved := g.locals
 			g.locals = append([]string{}, params...)
+			restore := g.forbidBlocks()
 			mb := g.Nodes(1, 1+r.Intn(2), nil, false)
+			restore()
 			g.locals = saved
 			mainBody = append(mainBody, &NMacro{Name: "lm", Params: params, Body: mb, ID: g.id("M")})
 			g.macros = append(g.macros, "lm")
